@@ -19,7 +19,7 @@ structure BlockFits (v : Version) (ts : Nat) (b : Block) : Prop where
   leaps : ∀ l ∈ b.leaps, TimeFits v ts l.1 ∧ I32r l.2
 
 /-- what makes written data acceptable, `rule` being what the footer denotes: every type record
-legal (offset not `i32::MIN`, designation index inside the table and followed by a NUL, designation
+legal (offset strictly within 24 h of UTC, designation index inside the table and followed by a NUL, designation
 empty or 3–7 legal characters), no forbidden indicator couple, transitions strictly increasing with
 type indices in range, the leap-second table constraints, and the rule agreeing with the last
 transition -/
